@@ -1343,7 +1343,8 @@ class UserSessionManager(Service, discriminator="user-session-manager"):
             self.remote_sessions.pop(session.uuid)
             session_type = "Remote"
             session_identity = f"{session_identity} {session.remote_ip_address}"
-            self.parent.terminal._connections.pop(session.uuid)
+            # the terminal may already have dropped the connection (e.g. the service was restarted meanwhile)
+            self.parent.terminal._connections.pop(session.uuid, None)
             software_manager: SoftwareManager = self.software_manager
             software_manager.send_payload_to_session_manager(
                 payload={"type": "user_timeout", "connection_id": session.uuid},
@@ -1485,14 +1486,14 @@ class UserSessionManager(Service, discriminator="user-session-manager"):
         """End a user session by username or user object."""
         if isinstance(user, str):
             user = self._user_manager.users[user]  # grab user object from username
-        for sess_id, session in self.remote_sessions.items():
+        logged_out = False
+        # a user can hold several sessions (one local and any number of remote ones): all of them end
+        for sess_id, session in list(self.remote_sessions.items()):
             if session.user is user:
-                self._logout(local=False, remote_session_id=sess_id)
-                return True
+                logged_out = self._logout(local=False, remote_session_id=sess_id) or logged_out
         if self.local_user_logged_in and self.local_session.user is user:
-            self.local_logout()
-            return True
-        return False
+            logged_out = self.local_logout() or logged_out
+        return logged_out
 
     @property
     def local_user_logged_in(self) -> bool:
